@@ -68,7 +68,7 @@ class Rig:
         self.digests = []
 
     def call(self, est, pobjs, opname, fn, X, kw, *, io_fault=None, cancel_at=None, role="primary",
-             fault_label=None, is_generator=False):
+             fault_label=None, is_generator=False, task_fault=None):
         """Returns (status, value, info).  status in {"ok","exc"}; raises Violation for oracles 1/2."""
         import dask
         case = self.case
@@ -87,7 +87,7 @@ class Rig:
         try:
             with seam:
                 if case.uses_dask and getattr(est, "n_threads", 1) > 1:
-                    sched = Scheduler(self.tape, self.ctx.trace_roots, step_cap=2_000_000)
+                    sched = Scheduler(self.tape, self.ctx.trace_roots, step_cap=2_000_000, task_fault=task_fault)
                     get = SimGet(sched, self.tape, instr_codes=python_methods_of(type(est), self.ctx.trace_roots))
                     with dask.config.set(scheduler=get), counter:
                         value = fn(X, kw)
@@ -106,7 +106,11 @@ class Rig:
             self.sched_stats.merge({k: v for k, v in sched.stats().items() if isinstance(v, int)})
             self.digests.append(sched.digest())
         self.steps += counter.count
-        info = {"io_ops": list(seam.ops), "lines": counter.count, "io_fired": seam.fired, "cancel_fired": counter.fired}
+        info = {"io_ops": list(seam.ops), "lines": counter.count, "io_fired": seam.fired, "cancel_fired": counter.fired,
+                "task_fault_fired": sched.task_fault_fired if sched is not None else None,
+                "tasks": sched.tasks_run if sched is not None else 0}
+        if info["task_fault_fired"]:
+            self.faults.hit("task:alloc-failure")
         if seam.fired:
             self.faults.hit(f"io:{seam.fired[1]}@{seam.fired[0]}")
         if counter.fired:
@@ -281,6 +285,8 @@ def _history(tape, ctx, case, rig, probes, faults, allow_cancel):
             opts.append((3, "data"))
         if allow_cancel and info["lines"] > 0:
             opts.append((4, "cancel"))
+        if info.get("tasks", 0) >= 2:
+            opts.append((6, "taskfail"))
         k = tape.weighted("f.kind", opts)
         if k is None:
             return None
@@ -299,6 +305,11 @@ def _history(tape, ctx, case, rig, probes, faults, allow_cancel):
             kind = tape.choice("f.data_kind", ["nan", "negative", "shape-or-zero"]) if not case.supports_invalid_doc \
                 else tape.choice("f.doc_kind", ["other-type", "unhashable"])
             return ("data", j, kind, f"data:{kind}@{j}")
+        if k == "taskfail":
+            # one of the chunk tasks of the call fails part-way (the rehearsal told how many tasks the call starts)
+            which = tape.draw("f.task_which", info["tasks"])
+            at = tape.weighted("f.task_at", [(2, 0), (2, 5), (2, 30), (1, 200)])
+            return ("taskfail", (which, at), None, f"taskfail@task{which}:line{at}")
         at = tape.draw("f.cancel_at", info["lines"])
         return ("cancel", at, None, f"cancel@{at}")
 
@@ -308,6 +319,7 @@ def _history(tape, ctx, case, rig, probes, faults, allow_cancel):
         label = None
         io_fault = None
         cancel_at = None
+        task_fault = None
         rstats = {}
         if fault is not None:
             label = fault[3]
@@ -319,6 +331,8 @@ def _history(tape, ctx, case, rig, probes, faults, allow_cancel):
                 bkw.update(invalid_at=fault[1], invalid_kind=fault[2])
             elif fault[0] == "cancel":
                 cancel_at = fault[1]
+            elif fault[0] == "taskfail":
+                task_fault = fault[1]
         if alt:
             bkw["alt_vectors"] = True
         X, kw = case.build(ids, for_fit=fn_kind != "transform", **bkw) if bkw else case.build(ids, for_fit=fn_kind != "transform")
@@ -329,7 +343,7 @@ def _history(tape, ctx, case, rig, probes, faults, allow_cancel):
             kw.update(case.fit_extra(ids))
             fn = lambda X_, kw_: case.call_fit(primary, fn_kind, X_, kw_)  # noqa: E731
         st, val, info = rig.call(primary, p_objs, opname, fn, X, kw, io_fault=io_fault, cancel_at=cancel_at,
-                                 fault_label=label, is_generator=is_gen)
+                                 fault_label=label, is_generator=is_gen, task_fault=task_fault)
         # objects given to the last successful fit must still be as the caller left them
         for name, (obj, before) in held.items():
             after = snap(obj)
@@ -348,7 +362,8 @@ def _history(tape, ctx, case, rig, probes, faults, allow_cancel):
             faults.hit(f"reader:{fault[1][0]}")
         if fault is not None and fault[0] == "data":
             faults.hit(f"data:{fault[2]}")
-        fired = bool(info["io_fired"] or info["cancel_fired"] or rstats.get("fired") or (fault is not None and fault[0] == "data"))
+        fired = bool(info["io_fired"] or info["cancel_fired"] or info.get("task_fault_fired") or rstats.get("fired")
+                     or (fault is not None and fault[0] == "data"))
         return st, val, info, fired
 
     seed_a, seed_b = 1234, 98765
